@@ -115,6 +115,12 @@ Theorem C18_partial_bytes : forall (py_int : str -> option Z),
 Proof. exact sse_roundtrip_bytes. Qed.
 Print Assumptions C18_partial_bytes.
 
+(* the int() hypothesis of C18_partial is met by the model of CPython's int() on ASCII strings (which the run compares
+   with the real int() on every ASCII candidate of every case) *)
+Theorem C18_int_ascii : forall ds, ds <> [] -> forallb is_digit ds = true -> py_int_ascii ds = Some (digits_val ds).
+Proof. exact py_int_ascii_digits. Qed.
+Print Assumptions C18_int_ascii.
+
 Theorem C18_ndjson_roundtrip : forall (J : Type) (jl : str -> option J) (recs : list (str * J)) t cs,
   all_clean (map fst recs) ->
   (forall l j, In (l, j) recs -> strip l <> [] /\ jl (strip l) = Some j) ->
